@@ -5,6 +5,7 @@
 # pylint: disable=too-many-positional-arguments
 
 from collections import Counter
+from copy import deepcopy
 
 from magpylib._src.defaults.defaults_utility import validate_style_keys
 from magpylib._src.exceptions import MagpylibBadUserInput
@@ -492,24 +493,37 @@ class BaseCollection(BaseDisplayRepr):
         """
         # pylint: disable=protected-access
 
-        if arg is None:
-            arg = {}
+        # work on a private copy: the dictionary of the caller must not receive the keywords
+        arg = {} if arg is None else deepcopy(arg)
         if kwargs:
             arg.update(kwargs)
         style_kwargs = arg
         if _validate:
             style_kwargs = validate_style_keys(arg)
 
-        for child in self._children:
-            # match properties false will try to apply properties from kwargs only if it finds it
-            # without throwing an error
-            if isinstance(child, Collection) and recursive:
-                self.__class__.set_children_styles(child, style_kwargs, _validate=False)
-            style_kwargs_specific = {
-                k: v
-                for k, v in style_kwargs.items()
-                if k.split("_")[0] in child.style.as_dict()
-            }
+        def members(coll):
+            for child in coll._children:
+                if isinstance(child, Collection) and recursive:
+                    yield from members(child)
+                yield child
+
+        # only matching properties are applied to a child
+        updates = [
+            (
+                child,
+                {
+                    k: v
+                    for k, v in style_kwargs.items()
+                    if k.split("_")[0] in child.style.as_dict()
+                },
+            )
+            for child in members(self)
+        ]
+        # an invalid name or value must reject the whole call: try every update on a
+        # copy of the child's style before the first child is changed
+        for child, style_kwargs_specific in updates:
+            child.style.copy().update(**style_kwargs_specific, _match_properties=True)
+        for child, style_kwargs_specific in updates:
             child.style.update(**style_kwargs_specific, _match_properties=True)
         return self
 
